@@ -22,11 +22,13 @@
   binned spectrum at the values the regenerated `update_model` wrote.
   `loglike_of_fin` / `callback_of_some` are the two composition steps (model statement ⇒ chain of source statements).
 
+    * `srcCallback s pi obs sig pt nfit wn out` = the regenerated log-likelihood closure of sampler `s` CALLING the regenerated
+      `chisq_trans`, both at the NaN-aware carrier `Option ℝ` (`none` = NaN, NaN-propagating `+ - * / sqrt log`, the ties
+      `src_*_loglike_nan`), when evaluating the forward model gave `out` (a binned spectrum or `InvalidModelException`).
+      `callback_of_some_nan` is the composition step for it (finite or not); `src_invalid_not_finite_full` restates
+      `invalid_not_finite` in full: the NaN chi-square of an invalid model comes out of every sampler's closure as NaN.
+
   Not restated (no tie)
-    * What the closures do with a NaN chi-square (`invalid_not_finite`: "never a finite likelihood"): the closures are tied
-      at a NaN-free carrier (`src_loglike` has the finite case only).  Restated: `update_model` does not raise and the
-      regenerated `chisq_trans` returns NaN (`src_invalid_not_finite`); that `-… - 0.5*NaN` is NaN is IEEE arithmetic, outside
-      the tie.
     * `fault_sequence`: the sequence of calls is made by the external sampler (`runSequence` is the model of that loop, there
       is no source for it); that each call depends on its argument alone is the form of the translated closures (pure
       functions of `theta`).
@@ -141,6 +143,71 @@ theorem callback_of_some {ρ : Type} (pi : ℝ) (params : List ρ) (priors : Lis
     simp only [hu, Option.some.injEq] at h
     exact ⟨w, rfl, h⟩
 
+/-! ### the NaN-aware chain: closure ∘ `chisq_trans` at the carrier `Option ℝ` -/
+
+/-- did evaluating the forward model raise `InvalidModelException` -/
+def raisedOf (out : ModelOut ℝ) : Bool :=
+  match out with
+  | .invalid => true
+  | .ok _ => false
+
+/-- the binned spectrum when it did not (after a raise `final_model` is never read) -/
+def binnedOf (out : ModelOut ℝ) : List (Option ℝ) :=
+  match out with
+  | .ok m => m
+  | .invalid => []
+
+/-- `self.chisq_trans(fit_params, data, datastd)` as the closures call it: the regenerated `chisq_trans` (it reads the error
+    bars from its argument, the observed spectrum and grid from `self._observed`) when the forward model gave `out` -/
+noncomputable def srcChisqFn (obs : List ℝ) (wn : List (Option ℝ)) (out : ModelOut ℝ) :
+    List (Option ℝ) → List (Option ℝ) → List (Option ℝ) → Option ℝ :=
+  fun _ _ std => Gen.SrcC06.chisq_trans (α := Option ℝ) (datastd := std) (final_model := binnedOf out)
+    (isnan := Option.isNone) (np_nan := none) (raised_InvalidModelException := raisedOf out) (spectrum := obs.map some)
+    (wavenumberGrid := wn)
+
+theorem srcChisqFn_eq (obs sig : List ℝ) (wn : List (Option ℝ)) (out : ModelOut ℝ) (a b : List (Option ℝ)) :
+    srcChisqFn obs wn out a b (sig.map some) = valOpt (chisq obs sig out) := by
+  cases out with
+  | ok m => exact src_chisq obs sig m wn
+  | invalid => exact src_chisq_invalid obs sig [] wn
+
+/-- the regenerated log-likelihood closure of sampler `s` at the point `pt`, calling the regenerated `chisq_trans`, at the
+    NaN-aware carrier (`none` = NaN) -/
+noncomputable def srcCallback (s : Sampler) (pi : ℝ) (obs sig pt : List ℝ) (nfit : ℕ) (wn : List (Option ℝ))
+    (out : ModelOut ℝ) : Option ℝ :=
+  match s with
+  | .nestle => Gen.SrcC06.nestle_loglike (α := Option ℝ) (pt.map some) (obs.map some) (sig.map some)
+      (c0p5 := some (1 / 2)) (chisq_trans := srcChisqFn obs wn out) (pi := some pi)
+  | .multinest => Gen.SrcC06.multinest_loglike (α := Option ℝ) (pt.map some) nfit (c0p5 := some (1 / 2))
+      (chisq_trans := srcChisqFn obs wn out) (errorBar := sig.map some) (pi := some pi) (spectrum := obs.map some)
+  | .polychord => (Gen.SrcC06.polychord_loglike (α := Option ℝ) (pt.map some) (obs.map some) (sig.map some) nfit
+      (c0p5 := some (1 / 2)) (chisq_trans := srcChisqFn obs wn out) (pi := some pi)).1
+
+/-- closure ∘ `chisq_trans`, regenerated, is the model's `loglike` — finite or NaN -/
+theorem srcCallback_eq (s : Sampler) (pi : ℝ) (obs sig pt : List ℝ) (nfit : ℕ) (wn : List (Option ℝ))
+    (out : ModelOut ℝ) (h : CubeOK s pt nfit) :
+    srcCallback s pi obs sig pt nfit wn out = valOpt (loglike pi obs sig out) := by
+  rw [src_loglike_nan pi obs sig [] out, src_nestle_loglike_nan]
+  cases s
+  · simp only [srcCallback]
+    rw [src_nestle_loglike_nan, srcChisqFn_eq]
+  · simp only [srcCallback]
+    rw [src_multinest_loglike_nan _ _ _ _ _ _ (by rw [List.length_map]; exact h), srcChisqFn_eq]
+  · simp only [srcCallback]
+    rw [src_polychord_loglike_nan _ _ _ _ _ _ (by rw [List.length_map]; exact h), srcChisqFn_eq]
+
+/-- a value of the model callback — finite or not —, read on the source: the regenerated `update_model` writes a list
+    `written` (no `ValueError`) and the regenerated closure of every sampler, calling the regenerated `chisq_trans` on the
+    forward model's output at `written`, returns that value (`none` for NaN) -/
+theorem callback_of_some_nan {ρ : Type} (pi : ℝ) (params : List ρ) (priors : List (Prior ℝ)) (fm : List ℝ → ModelOut ℝ)
+    (obs sig theta : List ℝ) (wn : List (Option ℝ)) (hp : params.length = priors.length) (v : Val ℝ)
+    (h : loglikeCallback pi priors fm obs sig theta = some v) :
+    ∃ written, srcWritten params priors theta = some written ∧
+      ∀ (s : Sampler) (pt : List ℝ) (nfit : ℕ), CubeOK s pt nfit →
+        srcCallback s pi obs sig pt nfit wn (fm written) = valOpt v := by
+  obtain ⟨w, hw, hl⟩ := callback_of_some pi params priors fm obs sig theta hp v h
+  exact ⟨w, hw, fun s pt nfit hs => by rw [srcCallback_eq s pi obs sig pt nfit wn _ hs, hl]⟩
+
 /-! ### the property theorems -/
 
 /-- **loglike_gaussian**, about the regenerated code: for a valid, finite binned model the regenerated `chisq_trans` returns a
@@ -213,6 +280,43 @@ theorem src_invalid_not_finite {ρ : Type} (params : List ρ) (priors : List (Pr
   | fin c => simp [loglike, hc] at hl
   | nan => rfl
   | posInf => rfl
+
+/-- **invalid_not_finite** in full, about the regenerated code: for a vector of the right length the regenerated `update_model`
+    does not raise and writes the prior-transformed values; when the forward model raises `InvalidModelException` there, the
+    regenerated closure of every sampler, calling the regenerated `chisq_trans`, returns NaN — through `chisq_trans`'s
+    `except` branch and the closure's own `-… - 0.5*chi_t` — never a number -/
+theorem src_invalid_not_finite_full {ρ : Type} (params : List ρ) (priors : List (Prior ℝ)) (fm : List ℝ → ModelOut ℝ)
+    (obs sig theta : List ℝ) (wn : List (Option ℝ)) (hp : params.length = priors.length)
+    (hlen : theta.length = priors.length) :
+    ∃ written, srcWritten params priors theta = some written ∧
+      written = List.zipWith (fun p v => p.prior v) priors theta ∧
+      (fm written = .invalid →
+        ∀ (s : Sampler) (pt : List ℝ) (nfit : ℕ), CubeOK s pt nfit →
+          srcCallback s Real.pi obs sig pt nfit wn (fm written) = none) := by
+  obtain ⟨⟨v, hv⟩, hnan⟩ := invalid_not_finite priors fm obs sig theta hlen
+  obtain ⟨w, hw, hall⟩ := callback_of_some_nan Real.pi params priors fm obs sig theta wn hp v hv
+  have hw' : w = List.zipWith (fun p v => p.prior v) priors theta := by
+    rw [srcWritten_eq params priors theta hp, updateModel, if_pos hlen] at hw
+    exact (Option.some.inj hw).symm
+  refine ⟨w, hw, hw', fun hinv s pt nfit hs => ?_⟩
+  have hv' : v = .nan := by
+    have := hnan (hw' ▸ hinv)
+    rw [hv] at this
+    exact Option.some.inj this
+  rw [hall s pt nfit hs, hv']
+  rfl
+
+/-- the same for any outcome of the forward model: the regenerated chain returns the model's `loglike` of it, a number exactly
+    when the model's value is finite -/
+theorem src_callback_value {ρ : Type} (params : List ρ) (priors : List (Prior ℝ)) (fm : List ℝ → ModelOut ℝ)
+    (obs sig theta : List ℝ) (wn : List (Option ℝ)) (hp : params.length = priors.length)
+    (hlen : theta.length = priors.length) :
+    ∃ written, srcWritten params priors theta = some written ∧
+      ∀ (s : Sampler) (pt : List ℝ) (nfit : ℕ), CubeOK s pt nfit →
+        srcCallback s Real.pi obs sig pt nfit wn (fm written) = valOpt (loglike Real.pi obs sig (fm written)) := by
+  obtain ⟨⟨v, hv⟩, _⟩ := invalid_not_finite priors fm obs sig theta hlen
+  obtain ⟨w, hw, _⟩ := callback_of_some_nan Real.pi params priors fm obs sig theta wn hp v hv
+  exact ⟨w, hw, fun s pt nfit hs => srcCallback_eq s Real.pi obs sig pt nfit wn _ hs⟩
 
 /-- **nan_bins**, about the regenerated `chisq_trans`: NaN bins of the model are skipped by the sum (`np.nansum`); a model
     that is NaN in every bin gives NaN -/
